@@ -121,6 +121,8 @@ def one_case(case: Dict[str, Any]) -> Dict[str, Any]:
     from ..gen.schema import generate_schema
     spec, _, _ = generate_schema(case["seed"] * 100003 + case["idx"], set(case.get("dirty", [])), size=case.get("size", "m"))
     sdl_defs = spec.definitions()
+    if case.get("_sdl"):
+        sdl_defs = [d for d in case["_sdl"].split("\n\n") if d.strip()]
     query_defs = frs + ops
     strategy = case["strategy"]
     cfg: Dict[str, Any] = dict(case["cfg"])
@@ -245,7 +247,7 @@ def run(tier: str, seed: int) -> int:
 
 
 def replay(data) -> int:
-    case = {k: v for k, v in data["case"].items() if not k.startswith("_")}
+    case = dict(data["case"])
     res = one_case(case)
     for v in res["violations"]:
         print(v["clause"], "::", v["detail"][:3000])
